@@ -246,7 +246,7 @@ func (c *Ctx) errOrigins(fn *ssa.Function, resIdx int, seen map[*ssa.Function]bo
 // under the fact EventIndex == WormholeMessageEventIndex (re-verified here, one exemption, one reason).
 func (c *Ctx) infeasibleEventIndexReturn(r *ssa.Return) bool {
 	need := false
-	for _, f := range facts.At(r, nil) {
+	for _, f := range acceptFacts(r) {
 		if strings.HasPrefix(f.Atom, "0 != ") && strings.HasSuffix(f.Atom, ".event.ContractEvent.EventIndex") {
 			need = true
 		}
